@@ -272,6 +272,18 @@ const FOOTER: &str = "\nlet __res;\ntry { __res = await main(); } catch (e) { __
 
 /// (name, body defining `async function main()`; may use __log)
 pub const AWAIT_ATOMS: &[(&str, &str)] = &[
+    ("caller-temp-array-literal", "async function main(){ async function inner(k){ return await order({k: k}); } function junk(){ var g = []; for (var i = 0; i < 40; i++) { g.push({i: i, s: 'x' + i}); } return g.length; } async function outer(){ const r = [ {tag: 'a'}, [1, 2], await inner(1), junk(), {tag: 'b'} ]; return r; } return await outer(); }"),
+    ("caller-temp-object-literal", "async function main(){ async function inner(k){ return await order({k: k}); } function junk(){ var g = []; for (var i = 0; i < 40; i++) { g.push({i: i, s: 'x' + i}); } return g.length; } async function outer(){ const r = { first: {x: 1}, list: [3, [4]], got: await inner(2), n: junk(), last: {y: [5]} }; return r; } return await outer(); }"),
+    ("caller-temp-call-arguments", "async function main(){ async function inner(k){ return await order({k: k}); } function junk(){ var g = []; for (var i = 0; i < 40; i++) { g.push({i: i, s: 'x' + i}); } return g.length; } function collect(a, b, c, d, e){ return [a, b, c, d, e]; } async function outer(){ return collect({x: 1}, [2], await inner(3), junk(), {y: 3}); } return await outer(); }"),
+    ("caller-temp-method-receiver", "async function main(){ async function inner(k){ return await order({k: k}); } function junk(){ var g = []; for (var i = 0; i < 40; i++) { g.push({i: i, s: 'x' + i}); } return g.length; } async function outer(){ return ({ v: [5], m(a, b){ return [this.v, a, b]; } }).m(await inner(1), junk()); } return await outer(); }"),
+    ("caller-temp-new-arguments", "async function main(){ async function inner(k){ return await order({k: k}); } function junk(){ var g = []; for (var i = 0; i < 40; i++) { g.push({i: i, s: 'x' + i}); } return g.length; } class K { constructor(a, b, c){ this.a = a; this.b = b; this.c = c; } } async function outer(){ const o = new K({x: [1]}, await inner(4), junk()); return [o.a, o.b, o.c]; } return await outer(); }"),
+    ("caller-temp-three-levels", "async function main(){ async function l3(k){ return [ {l: 3}, await order({k: k}), junk() ]; } async function l2(k){ return [ {l: 2}, await l3(k), junk() ]; } async function l1(k){ return [ {l: 1}, await l2(k), junk(), {end: 1} ]; } function junk(){ var g = []; for (var i = 0; i < 40; i++) { g.push({i: i, s: 'x' + i}); } return g.length; } return await l1(6); }"),
+    ("caller-temp-sync-frames", "async function main(){ function junk(){ var g = []; for (var i = 0; i < 40; i++) { g.push({i: i, s: 'x' + i}); } return g.length; } function deep(k){ return [ {d: 1}, order({k: k}), junk() ]; } function mid(k){ return { m: [1], v: deep(k), j: junk() }; } const t = mid(3); t.v[1] = await t.v[1]; return t; }"),
+    ("caller-temp-template-and-concat", "async function main(){ async function inner(k){ return await order({k: k}); } function junk(){ var g = []; for (var i = 0; i < 40; i++) { g.push({i: i, s: 'x' + i}); } return g.length; } async function outer(){ return [ `${JSON.stringify({a: [1]})}:${await inner(2)}:${junk()}`, String([{b: 1}].length) + (await inner(3)) + junk() ]; } return await outer(); }"),
+    ("caller-temp-promise-all", "async function main(){ async function inner(k){ return await order({k: k}); } function junk(){ var g = []; for (var i = 0; i < 40; i++) { g.push({i: i, s: 'x' + i}); } return g.length; } async function outer(){ return await Promise.all([ {plain: [1]}, inner(1), junk(), inner(2), {z: 2} ]); } return await outer(); }"),
+    ("caller-temp-spread-and-destructure", "async function main(){ async function inner(k){ return await order({k: k}); } function junk(){ var g = []; for (var i = 0; i < 40; i++) { g.push({i: i, s: 'x' + i}); } return g.length; } async function outer(){ const [a, b, ...rest] = [ ...[{s: 1}], await inner(5), junk(), {t: [2]} ]; return { a: a, b: b, rest: rest }; } return await outer(); }"),
+    ("caller-temp-closure-captures", "async function main(){ async function inner(k){ return await order({k: k}); } function junk(){ var g = []; for (var i = 0; i < 40; i++) { g.push({i: i, s: 'x' + i}); } return g.length; } function mk(o){ return function(){ return o; }; } async function outer(){ return [ mk({c: 1}), await inner(1), junk() ].map(function(x){ return typeof x === 'function' ? x() : x; }); } return await outer(); }"),
+    ("caller-temp-generator-driver", "async function main(){ async function inner(k){ return await order({k: k}); } function junk(){ var g = []; for (var i = 0; i < 40; i++) { g.push({i: i, s: 'x' + i}); } return g.length; } function* g(){ yield {g: 1}; yield {g: 2}; } async function outer(){ const it = g(); return [ it.next().value, await inner(2), junk(), it.next().value ]; } return await outer(); }"),
     ("plain", "async function main(){ const a = await order({k: 1}); return a; }"),
     ("two-sequential", "async function main(){ const a = await order({k: 1}); const b = await order({k: a}); return [a, b]; }"),
     ("in-expression", "async function main(){ const x = 1 + (await order({k: 2})) * 3 - (await order({k: 1})); return x; }"),
